@@ -256,6 +256,8 @@ fn settings_from(inp: &Value) -> DefaultSettings<f64> {
     s
 }
 
+static LAST_FAILS: std::sync::atomic::AtomicUsize = std::sync::atomic::AtomicUsize::new(0);
+
 /// driven solver: scaling update(s) at the given points, then KKTSolver::update
 fn driven_case(inp: &Value) -> Option<String> {
     let p = Raw::from_json(&inp["P"]);
@@ -268,7 +270,22 @@ fn driven_case(inp: &Value) -> Option<String> {
     let r = guarded(move || {
         let mut d = vh::Driven::new(&p.csc(), &a.csc(), &ct, settings);
         let mut ok = true;
+        let mut nfail = 0usize;
         for pt in pts.iter() {
+            // failure histories: poison one data value (NaN / inf) through the real update_P / update_A,
+            // or put the original data back
+            if let Some(which) = pt.get("poison").and_then(|x| x.as_str()) {
+                let k = pt["k"].as_u64().unwrap() as usize;
+                let bad = if pt["v"].as_str() == Some("inf") { f64::INFINITY } else { f64::NAN };
+                if which == "A" { let mut m2 = a.csc(); if k < m2.nzval.len() { m2.nzval[k] = bad; } d.update_A(&m2); }
+                else { let mut m2 = p.csc(); if k < m2.nzval.len() { m2.nzval[k] = bad; } d.update_P(&m2); }
+                continue;
+            }
+            if let Some(which) = pt.get("restore").and_then(|x| x.as_str()) {
+                if which == "A" { d.update_A(&a.csc()); } else { d.update_P(&p.csc()); }
+                continue;
+            }
+            let may_fail = pt.get("may_fail").and_then(|x| x.as_bool()).unwrap_or(false);
             if pt.get("identity").and_then(|x| x.as_bool()).unwrap_or(false) {
                 // identity reset (what default_start does on a re-solve), then KKT update
                 d.set_identity_scaling();
@@ -283,8 +300,10 @@ fn driven_case(inp: &Value) -> Option<String> {
             ok = d.update_scaling(&s, &z, mu, dual);
             if !ok { break; }
             ok = d.kkt_update();
+            if !ok && may_fail { nfail += 1; ok = true; continue; }   // an expected failed factorisation: keep using the solver
             if !ok { break; }
         }
+        LAST_FAILS.store(nfail, std::sync::atomic::Ordering::SeqCst);
         if !ok { return None; }
         let infos = d.cone_infos();
         let hs = d.get_Hs();
@@ -799,6 +818,59 @@ fn gen_mapops(sink: &mut CaseSink, st: &mut Stats, rng: &mut Rng, thorough: bool
     }
 }
 
+/// failure histories on one solver object: a factorisation made to fail by a poisoned data value
+/// (NaN / inf written through update_A / update_P), then corrected data and a further update;
+/// also success -> failure -> success
+fn gen_failure_histories(sink: &mut CaseSink, st: &mut Stats, rng: &mut Rng, thorough: bool) {
+    let pool: Vec<CD> = vec![CD::Z(1), CD::NN(2), CD::SOC(3), CD::SOC(5), CD::SOC(6), CD::EXP, CD::GP(alpha_for(2), 1), CD::PSD(2)];
+    let nd = if thorough { 200 } else { 40 };
+    for it in 0..nd {
+        let nc = 1 + rng.below(3);
+        let cs: Vec<CD> = (0..nc).map(|_| rng.pick(&pool).clone()).collect();
+        let m: usize = cs.iter().map(|c| c.numel()).sum();
+        let n = 1 + rng.below(4);
+        // P with some stored and some missing diagonal entries; A with at least one entry
+        let mut p = rand_p(rng, n, 1, 3, 4);
+        for (k, v) in p.nzval.iter_mut().enumerate() { *v = 0.125 * ((k % 5) as f64 + 1.0); }
+        for j in 0..n { let e = p.colptr[j + 1]; if e > p.colptr[j] && p.rowval[e - 1] == j { p.nzval[e - 1] = 4.0 + j as f64 * 0.5; } }
+        let mut a = rand_a(rng, m, n, 1, 2);
+        for v in a.nzval.iter_mut() { *v = dy8(rng, -16, 16); }
+        if a.nzval.is_empty() && p.nzval.is_empty() { continue; }
+        let ct: Vec<SupportedConeT<f64>> = cs.iter().map(|c| c.cone()).collect();
+        let nonsym = cs.iter().any(|c| matches!(c, CD::EXP | CD::POW(_) | CD::GP(_, _)));
+        let mkpt = |rng: &mut Rng, may_fail: bool| -> Option<Value> {
+            guarded(|| {
+                let (s, z) = interior_point(rng, &cs, &ct, &p, &a, 0.6);
+                let mu = (s.iter().zip(z.iter()).map(|(x, y)| x * y).sum::<f64>() / (m.max(1) as f64)).abs().max(1e-3);
+                json!({"s": s, "z": z, "mu": mu, "dual": nonsym, "may_fail": may_fail})
+            })
+        };
+        let use_a = !a.nzval.is_empty() && (p.nzval.is_empty() || it % 3 != 2);
+        let (which, len) = if use_a { ("A", a.nzval.len()) } else { ("P", p.nzval.len()) };
+        let poison = json!({"poison": which, "k": rng.below(len), "v": if it % 4 == 3 { "inf" } else { "nan" }});
+        let restore = json!({"restore": which});
+        let mut pts: Vec<Value> = vec![];
+        let mut okp = true;
+        let mut push_pt = |pts: &mut Vec<Value>, rng: &mut Rng, mf: bool| { match mkpt(rng, mf) { Some(v) => pts.push(v), None => okp = false } };
+        match it % 3 {
+            0 => { pts.push(poison.clone()); push_pt(&mut pts, rng, true); pts.push(restore.clone()); push_pt(&mut pts, rng, false); }
+            1 => { push_pt(&mut pts, rng, false); pts.push(poison.clone()); push_pt(&mut pts, rng, true); pts.push(restore.clone()); push_pt(&mut pts, rng, false); }
+            _ => { push_pt(&mut pts, rng, false); pts.push(poison.clone()); push_pt(&mut pts, rng, true); push_pt(&mut pts, rng, true);
+                   pts.push(restore.clone()); push_pt(&mut pts, rng, false); push_pt(&mut pts, rng, false); }
+        }
+        if !okp { continue; }
+        let inp = json!({"P": p.json(), "A": a.json(), "cones": cds_json(&cs), "points": pts,
+                         "method": if it % 5 == 4 { "faer" } else { "qdldl" }, "static_reg": true});
+        if let Some(coq) = driven_case(&inp) {
+            let nf = LAST_FAILS.load(std::sync::atomic::Ordering::SeqCst);
+            st.hit(if nf > 0 { "values/driven-failure-history(a factorisation failed)" } else { "values/driven-failure-history(no factorisation failed)" });
+            sink.case("driven", inp, coq, &["values", "failure-history"]);
+        } else {
+            st.hit("values/driven-failure-history-skipped");
+        }
+    }
+}
+
 fn replay_case(sink: &mut CaseSink, case: &Value) {
     let op = case["op"].as_str().unwrap_or("assemble");
     let inp = &case["input"];
@@ -854,6 +926,7 @@ fn main() {
         gen_values(&mut sink, &mut st, &mut rng, thorough);
         gen_values_reset(&mut sink, &mut st, &mut rng, thorough);
         gen_mapops(&mut sink, &mut st, &mut rng, thorough);
+        gen_failure_histories(&mut sink, &mut st, &mut rng, thorough);
         sink.record(json!({"stats": st.by}));
     }
     sink.record(json!({"meta": {"prop": "c11", "seed": seed, "tier": tier, "blas": blas_shim::AVAILABLE}}));
